@@ -463,7 +463,7 @@ def warm_decide(case, mod=3):
     return zlib.crc32(json.dumps(case, sort_keys=True, default=str).encode()) % mod == 0
 
 
-def warmup(G, call, layers=("directed", "bidirected", "circle", "undirected"), salt=None):
+def _warmup_raw(G, call, layers=("directed", "bidirected", "circle", "undirected"), salt=None):
     """Exercise 'query, edit the same object in place, query again': perturb G in place, run `call()` on the
     perturbed graph (result and exceptions ignored), then restore G in place.  The perturbation keeps the
     number of nodes and of edges per type (so count-validated memo tables stay "valid"): one edge (u,v) is
@@ -511,6 +511,8 @@ def warmup(G, call, layers=("directed", "bidirected", "circle", "undirected"), s
                             continue
                         try:
                             call()
+                        except CallTimeout:
+                            raise
                         except BaseException:
                             pass
                         finally:
@@ -526,6 +528,8 @@ def warmup(G, call, layers=("directed", "bidirected", "circle", "undirected"), s
                             pass
                         try:
                             call()
+                        except CallTimeout:
+                            raise
                         except BaseException:
                             pass
                     finally:
@@ -568,6 +572,8 @@ def warmup(G, call, layers=("directed", "bidirected", "circle", "undirected"), s
                 moved = None
         try:
             call()
+        except CallTimeout:
+            raise
         except BaseException:
             pass
         finally:
@@ -657,6 +663,8 @@ def detour(G, call, salt, layers=("directed", "bidirected", "circle", "undirecte
                     pass
         try:
             call()
+        except CallTimeout:
+            raise
         except BaseException:
             pass
     ops = [("rm", s) for s in surplus] + [("add", x) for x in removed]
@@ -686,3 +694,90 @@ def detour(G, call, salt, layers=("directed", "bidirected", "circle", "undirecte
         except Exception:
             pass
     return True
+
+
+# ----------------------------------------------------------------------------- time limits for implementation calls
+class CallTimeout(BaseException):
+    """raised by time_limit; a BaseException so that `except Exception` in callers / callees cannot swallow it"""
+
+
+class time_limit:
+    """`with time_limit(20): f()` raises CallTimeout in the main thread of the process after 20 s (SIGALRM).
+    A function under test that does not return is reported, never waited for."""
+
+    def __init__(self, seconds):
+        self.s = seconds
+
+    def __enter__(self):
+        import signal
+
+        def _h(signum, frame):
+            raise CallTimeout()
+        self.old = signal.signal(signal.SIGALRM, _h)
+        signal.setitimer(signal.ITIMER_REAL, self.s)
+        return self
+
+    def __exit__(self, *a):
+        import signal
+        signal.setitimer(signal.ITIMER_REAL, 0)
+        signal.signal(signal.SIGALRM, self.old)
+        return False
+
+
+def _content(G):
+    mixed = hasattr(G, "get_graphs")
+    lay = {}
+    if mixed:
+        for L, gr in G.get_graphs().items():
+            lay[L] = [(u, v, dict(d)) for u, v, d in gr.edges(data=True)]
+    else:
+        lay[None] = [(u, v, dict(d)) for u, v, d in G.edges(data=True)]
+    return {"nodes": [(n, dict(d)) for n, d in G.nodes(data=True)], "layers": lay}
+
+
+def _heal(G, content):
+    """put the nodes and edges of `content` back into G in place (layer-level operations, no class guards)"""
+    mixed = hasattr(G, "get_graphs")
+    want = [n for n, _ in content["nodes"]]
+    for n in list(G.nodes):
+        if n not in want:
+            G.remove_node(n)
+    for n, d in content["nodes"]:
+        if n not in G.nodes:
+            G.add_node(n, **d)
+    for L, es in content["layers"].items():
+        gr = G.get_graphs(L) if mixed else G
+        for u, v in list(gr.edges):
+            gr.remove_edge(u, v)
+        for u, v, d in es:
+            gr.add_edge(u, v, **d)
+
+
+def warmup(G, call, layers=("directed", "bidirected", "circle", "undirected"), salt=None):
+    """query - edit the same object in place - query again.  Two phases, `call()` inside each (its result
+    and exceptions are ignored): (1) a count-preserving re-pointing of one edge (see _warmup_raw mode 0:
+    memo tables validated by node / edge counts stay 'valid' but are stale); (2) a random detour that adds
+    and removes surplus edges through single-edge and bulk APIs (state cleared in only some mutators).
+    Afterwards G is checked against its content before the warm-up and healed in place if anything differs
+    (e.g. because the function under test itself changed the graph), so the judged call always sees the
+    case's graph."""
+    import zlib
+    before = snapshot(G)
+    content = _content(G)
+    if salt is None:
+        salt = zlib.crc32(repr(before).encode())
+    ok = True
+    try:
+        _warmup_raw(G, call, layers, salt=(salt // 2) * 30)      # even salt, mode 0: re-point
+        detour(G, call, salt | 1, layers)
+    except CallTimeout:
+        raise
+    except BaseException:
+        ok = False
+    try:
+        if not ok or snapshot(G) != before:
+            _heal(G, content)
+            ok = snapshot(G) == before
+    except BaseException:
+        ok = False
+    return ok
